@@ -330,3 +330,54 @@ func Names() []*Schema {
 	s.Msgs = []Msg{n0, n1}
 	return []*Schema{s}
 }
+
+// Graph: well-known types in every shape, messages imported from two other Go packages, nesting three
+// deep, mutual recursion across files.
+func Graph() []*Schema {
+	// leaf package
+	ga := corpusSchema("ga")
+	ga.Msgs = []Msg{
+		{Name: "Leaf", Fields: []Field{{Num: 1, Kind: String, Shape: Singular}, {Num: 2, Kind: Sint64, Shape: Repeated, Packed: true}, {Num: 3, IsMsg: true, Msg: 0, Shape: Singular}}},
+		{Name: "Other", Fields: []Field{{Num: 1, IsMsg: true, Msg: 0, Shape: Map, Key: Int32}, {Num: 2, Kind: Bytes, Shape: Oneof, Group: 0}, {Num: 3, IsMsg: true, Msg: 0, Shape: Oneof, Group: 0}}},
+	}
+	// middle package imports ga
+	gb := corpusSchema("gb")
+	gb.Imports = []string{"verifcorpus/ga/ga.proto"}
+	gb.Msgs = []Msg{
+		{Name: "Mid", Fields: []Field{
+			{Num: 1, IsMsg: true, Extern: "vc.ga.Leaf", Shape: Singular},
+			{Num: 2, IsMsg: true, Extern: "vc.ga.Other", Shape: Repeated},
+			{Num: 3, IsMsg: true, Msg: 0, Shape: Map, Key: String},
+			{Num: 4, Kind: Enum, Shape: Repeated, Packed: true},
+		}},
+	}
+	// top package imports both and the well-known types
+	gc := corpusSchema("gc")
+	gc.Imports = []string{"verifcorpus/ga/ga.proto", "verifcorpus/gb/gb.proto", "google/protobuf/any.proto", "google/protobuf/timestamp.proto",
+		"google/protobuf/duration.proto", "google/protobuf/field_mask.proto", "google/protobuf/wrappers.proto", "google/protobuf/empty.proto"}
+	top := Msg{Name: "Top"}
+	wkts := []string{"google.protobuf.Any", "google.protobuf.Timestamp", "google.protobuf.Duration", "google.protobuf.FieldMask", "google.protobuf.StringValue", "google.protobuf.Empty"}
+	n := 1
+	for _, w := range wkts {
+		top.Fields = append(top.Fields, Field{Num: n, IsMsg: true, Extern: w, Shape: Singular})
+		n++
+		top.Fields = append(top.Fields, Field{Num: n, IsMsg: true, Extern: w, Shape: Repeated})
+		n++
+		top.Fields = append(top.Fields, Field{Num: n, IsMsg: true, Extern: w, Shape: Map, Key: String})
+		n++
+	}
+	for _, w := range wkts[:4] {
+		top.Fields = append(top.Fields, Field{Num: n, IsMsg: true, Extern: w, Shape: Oneof, Group: 0})
+		n++
+	}
+	wk := Msg{Name: "Wk", Fields: append([]Field(nil), top.Fields...)}
+	top.Fields = append(top.Fields, Field{Num: n, IsMsg: true, Extern: "vc.gb.Mid", Shape: Singular})
+	n++
+	top.Fields = append(top.Fields, Field{Num: n, IsMsg: true, Extern: "vc.ga.Leaf", Shape: Repeated})
+	n++
+	top.Fields = append(top.Fields, Field{Num: n, IsMsg: true, Msg: 1, Shape: Singular})
+	inner := Msg{Name: "Inner", Fields: []Field{{Num: 1, IsMsg: true, Msg: 2, Shape: Singular}, {Num: 2, IsMsg: true, Msg: 0, Shape: Singular}}}
+	inner2 := Msg{Name: "Inner2", Fields: []Field{{Num: 1, IsMsg: true, Extern: "google.protobuf.Timestamp", Shape: Singular}, {Num: 2, Kind: Int32, Shape: Singular}}}
+	gc.Msgs = []Msg{top, inner, inner2, wk}
+	return []*Schema{ga, gb, gc}
+}
